@@ -316,6 +316,14 @@ def _add(bundle: Bundle, val: BundleAttr) -> BundleAttr:
         msg = f"Invalid Bundle attribute {val} for {bundle}"
         raise TypeError(msg)
 
+    # If the name is being re-used, remove its prior holder from its own type-specific container
+    old = bundle.namespace.get(val.name, None)
+    if old is not None and old is not val:
+        for ctr in (bundle.signals, bundle.bundles):
+            if ctr.get(val.name, None) is old:
+                ctr.pop(val.name)
+        old._parent_bundle = None
+
     # Add it to the bundle namespace, and the type-specific container
     type_ctr[val.name] = val
     bundle.namespace[val.name] = val
